@@ -27,8 +27,12 @@ struct id_state {
   uint64_t nops;        /* atomic operations I performed on the flags */
   uint64_t nclears;
   _Bool claimed_from_free; /* my last claim was a 0 -> 1 transition performed by me */
+
 };
 extern struct id_state ID;
+/* bounded probe-coverage group (C14): every slot but id_free_slot is permanently reserved, id_free_slot is not stolen */
+extern _Bool id_cover_mode;
+extern size_t id_free_slot;
 extern atomic_b *_id_vec;
 extern const size_t kMaxThreadNum;
 
@@ -51,6 +55,7 @@ static inline size_t id_index(const atomic_b *a)
 /* RELY for one cell */
 static inline void id_env_cell(atomic_b *a, size_t i)
 {
+  if(id_cover_mode) { a->v = (ID.own && i == ID.my_id) || i != id_free_slot; return; }
   if(ID.own && i == ID.my_id) { a->v = 1; return; }      /* only the owner clears its flag */
   if(i == ID.other_id) { a->v = 1; return; }              /* the other thread is still running */
   a->v = nondet_bool();
@@ -136,11 +141,18 @@ static inline void shared_ptr_size_release(shared_ptr_size *p)
 }
 static inline void shared_ptr_size_dtor(shared_ptr_size *p) { shared_ptr_size_release(p); }
 static inline void shared_ptr_size_reset(shared_ptr_size *p) { shared_ptr_size_release(p); }
-static inline shared_ptr_size *shared_ptr_size_move_assign(shared_ptr_size *dst, shared_ptr_size src)
+static inline shared_ptr_size *shared_ptr_size_move_assign(shared_ptr_size *dst, shared_ptr_size *src)
 {
   shared_ptr_size_release(dst);
-  *dst = src;
+  *dst = *src;
+  src->ptr = 0; /* moved-from: destroying it has no effect */
   return dst;
+}
+static inline shared_ptr_size shared_ptr_size_exchange_null(shared_ptr_size *p)
+{
+  shared_ptr_size old = *p; /* ownership moves into the returned value */
+  p->ptr = 0;
+  return old;
 }
 static inline weak_ptr_size weak_ptr_size_from_shared(const shared_ptr_size *p)
 {
